@@ -264,6 +264,10 @@ pub struct Case {
     /// run on a thread without a name: the `thread` field is then null
     #[serde(default)]
     pub unnamed_thread: bool,
+    /// before the checked record, another record is encoded on the same thread into a writer that fails
+    /// after this many bytes (state must not leak from the failed call into the next one)
+    #[serde(default)]
+    pub prior_failure: Option<usize>,
 }
 
 pub fn strategy() -> impl Strategy<Value = Case> {
@@ -280,12 +284,14 @@ pub fn strategy() -> impl Strategy<Value = Case> {
         prop::option::weighted(0.3, jtext().prop_filter("thread names cannot hold NUL", |s| !s.contains('\0'))),
         crate::pat::write_script(),
         prop::bool::weighted(0.1),
+        prop::option::weighted(0.25, prop_oneof![Just(0usize), 1usize..40, 100usize..2000]),
     )
-        .prop_map(|((level, msg, target, module, file, line, mdc), thread, script, unnamed_thread)| Case {
+        .prop_map(|((level, msg, target, module, file, line, mdc), thread, script, unnamed_thread, prior_failure)| Case {
             rec: Rec { level, msg, target, module, file, line, mdc },
             thread,
             script,
             unnamed_thread,
+            prior_failure,
         })
 }
 
@@ -293,9 +299,39 @@ fn get<'a>(o: &'a [(String, J)], k: &str) -> Option<&'a J> {
     o.iter().find(|(n, _)| n == k).map(|(_, v)| v)
 }
 
+/// A sink that fails after a number of bytes.
+struct FailW {
+    left: usize,
+}
+impl std::io::Write for FailW {
+    fn write(&mut self, buf: &[u8]) -> std::io::Result<usize> {
+        if self.left == 0 {
+            return Err(std::io::Error::new(std::io::ErrorKind::Other, "verif: sink failure"));
+        }
+        let n = buf.len().min(self.left);
+        self.left -= n;
+        Ok(n)
+    }
+    fn flush(&mut self) -> std::io::Result<()> {
+        Ok(())
+    }
+}
+impl log4rs::encode::Write for FailW {}
+
 fn check_on_thread(case: &Case, obs: &mut Obs, thread_name: Option<&str>) -> CaseResult {
     let rec = &case.rec;
     let enc = JsonEncoder::new();
+    if let Some(k) = case.prior_failure {
+        let other = Rec { level: 1, msg: vec!["an earlier record whose sink fails".into()], target: "earlier".into(), module: None, file: None, line: None, mdc: vec![] };
+        let r = catch(|| {
+            let mut w = FailW { left: k };
+            crate::pat::with_rec(&other, |r| log4rs::encode::Encode::encode(&enc, &mut w, r)).is_err()
+        });
+        match r {
+            Err(p) => return fail("C12:panic", format!("encode into a failing sink panicked: {}", p)),
+            Ok(_) => obs.class("after-a-failed-encode-on-this-thread"),
+        }
+    }
     let t0 = chrono::Utc::now();
     let (w, res) = match catch(|| encode_with(&enc, rec, case.script.clone())) {
         Ok(x) => x,
